@@ -1,17 +1,17 @@
 SPECIFICATION Spec
 CONSTANTS
-  KindSet = {"att", "prep", "syncmsg"}
-  ConcSet = {1, 2}
+  KindSet = {"att", "agg"}
+  ConcSet = {2}
   ItemSet = {1}
   NodeCounts = {2}
   DefaultConc = 16
-  MaxCalls = 3
-  HistClients = {"lighthouse", "teku"}
-  HistOutcomes = {"accept", "reject", "treject", "slowok", "hang"}
-  Design = "asks"
+  MaxCalls = 2
+  HistClients = {"lighthouse"}
+  HistOutcomes = {"accept", "reject", "slowrej1", "slowok2", "hang"}
+  Design = "allfailed"
   MaxLat = 2
   CanonOuts = {}
-  ConfSets = {}
+  ConfSets = {{1}, {2}, {1, 2}}
   OtherSets = {}
   RefKind = "att"
 INVARIANTS TypeOK FlagSound TimeoutSignalHeard OfferedInFull SuccessIff ReturnsByTimeout Independence ClassifiedByNow
